@@ -298,6 +298,14 @@ def prove(goal: BoolSym, assumptions=(), extra_axioms=(), timeout_ms=None, use_c
             STATS["norm_s"] += dt
             return Result("refuted", "normaliser", dt, model=w,
                           detail="non-zero residual; exact rational witness satisfies all assumptions")
+        if any(ATOMS[a].kind in ("sqrt", "sin", "cos", "log", "exp", "abs", "floor") for a in atoms):
+            w = numeric_witness(goal, assumptions)
+            if w is not None:
+                dt = time.time() - t0
+                STATS["norm_calls"] += 1
+                STATS["norm_s"] += dt
+                return Result("refuted", "numeric-witness", dt, model=w,
+                              detail="residual far from zero (|r| > 1e-12 at 40 digits) at rational inputs satisfying all assumptions")
     s = z3.Solver()
     s.set("timeout", timeout_ms or Z3_TIMEOUT_MS)
     for a in assumptions:
@@ -468,6 +476,62 @@ def _ATOM_LOOKUP(kind, key):
     return a.id if a is not None else None
 
 
+_CIRCLE = [(Fraction(3, 5), Fraction(4, 5)), (Fraction(-4, 5), Fraction(3, 5)), (Fraction(5, 13), Fraction(-12, 13)),
+           (Fraction(-8, 17), Fraction(-15, 17)), (Fraction(1), Fraction(0)), (Fraction(0), Fraction(-1)), (Fraction(20, 29), Fraction(21, 29))]
+
+
+def unit_circle_pairs(assumptions):
+    """pairs of atoms (x, y) constrained by x^2 + y^2 == 1 (unit vectors): sampled from rational points of the circle"""
+    out = []
+    for f in assumptions:
+        if f.k[0] != "eq":
+            continue
+        p = Sym._from_key(f.k[1])
+        sq = [m for m in p.p if len(m) == 1 and m[0][1] == 2]
+        if len(p.p) == 3 and len(sq) == 2 and () in p.p and p.p[sq[0]] == p.p[sq[1]] == -p.p[()]:
+            out.append((sq[0][0][0], sq[1][0][0]))
+    return out
+
+
+def simple_bounds(assumptions):
+    """one-variable bounds among the assumptions (0 <= s < 1, dx > 0, ...): they guide witness sampling"""
+    lo, hi = {}, {}
+
+    def scan(b):
+        k = b.k
+        if k[0] == "and":
+            for x in k[1]:
+                scan(BoolSym(x))
+        elif k[0] in ("lt", "le"):
+            aff = Sym._from_key(k[1]).as_affine()
+            if aff is None:
+                return
+            c0, lin = aff
+            if len(lin) != 1:
+                return
+            (aid, co), = lin.items()
+            if ATOMS[aid].sort != "real" or ATOMS[aid].kind not in ("var", "cell"):
+                return
+            bound = -c0 / co  # co*x + c0 (<|<=) 0
+            (hi if co > 0 else lo)[aid] = bound
+
+    for f in assumptions:
+        scan(f)
+    return lo, hi
+
+
+def _atom_env_key(aid):
+    a_ = ATOMS[aid]
+    if a_.kind == "var":
+        return ("var", a_.args[0])
+    if a_.kind == "cell":
+        try:
+            return ("cell", (a_.args[0], tuple(int(Sym._from_key(x).const_value()) for x in a_.args[1])))
+        except Exception:
+            return None
+    return None
+
+
 def poly_witness(goal: BoolSym, assumptions, tries=40, seed=0):
     """For goal `residual == 0` with a non-zero residual over independent atoms: an exact rational
     assignment satisfying the assumptions under which the residual is non-zero, or None."""
@@ -490,8 +554,13 @@ def poly_witness(goal: BoolSym, assumptions, tries=40, seed=0):
     # solver model of the assumptions; everything else is sampled
     pinned = {}
     real_constrained = set()
+    lo0, hi0 = simple_bounds(assumptions)
+    easy = set(lo0) | set(hi0) | {a for pr in unit_circle_pairs(assumptions) for a in pr}
     for f in assumptions:
         ids = all_atoms([f])
+        if len(ids) <= 2 and all(a in easy for a in ids):
+            continue  # one-variable bounds and unit-circle pairs are sampled directly (a solver model tends to sit on a
+            # boundary such as ratio = 0, where a non-zero residual can vanish by accident)
         if any(ATOMS[a].sort == "real" for a in ids):
             real_constrained |= {a for a in ids if ATOMS[a].kind in ("var", "cell")}
     if real_constrained:
@@ -518,8 +587,18 @@ def poly_witness(goal: BoolSym, assumptions, tries=40, seed=0):
         if not ok:
             continue
         ints = {v.args[0]: model.eval(atom_z3(v), model_completion=True).as_long() for v in int_vars}
+        circles = unit_circle_pairs(assumptions)
+        lo, hi = simple_bounds(assumptions)
         for _ in range(tries):
             vals = {}
+            fixed = set()
+            for (ax, ay) in circles:
+                cx, cy = rng.choice(_CIRCLE)
+                for aid, v in ((ax, cx), (ay, cy)):
+                    ek = _atom_env_key(aid)
+                    if ek is not None:
+                        vals[ek] = v
+                        fixed.add(ek)
 
             def env(kind, key, sort, vals=vals):
                 if kind == "var" and sort == "int":
@@ -530,14 +609,27 @@ def poly_witness(goal: BoolSym, assumptions, tries=40, seed=0):
                     if pa is not None and pa in pinned:
                         vals[k] = pinned[pa]
                 if k not in vals:
-                    vals[k] = Fraction(rng.randint(-6, 6), rng.choice((1, 1, 2, 3))) if rng.random() < 0.8 else Fraction(rng.randint(1, 9))
+                    aid = _ATOM_LOOKUP(kind, key)
+                    a, b = lo.get(aid), hi.get(aid)
+                    if a is not None and b is not None and b > a:
+                        vals[k] = a + (b - a) * Fraction(rng.randint(1, 12), 13)
+                        fixed.add(k)
+                    elif a is not None:
+                        vals[k] = a + Fraction(rng.randint(1, 9), rng.choice((1, 2, 3)))
+                        fixed.add(k)
+                    elif b is not None:
+                        vals[k] = b - Fraction(rng.randint(1, 9), rng.choice((1, 2, 3)))
+                        fixed.add(k)
+                    else:
+                        vals[k] = Fraction(rng.randint(-6, 6), rng.choice((1, 1, 2, 3))) if rng.random() < 0.8 else Fraction(rng.randint(1, 9))
                 return vals[k]
 
             try:
                 if not all(eval_bool(f, env) for f in assumptions):
                     # retry with positive values (typical preconditions: dx, nu, ... > 0)
                     for k in list(vals):
-                        vals[k] = abs(vals[k]) + Fraction(1, 3)
+                        if k not in fixed:
+                            vals[k] = abs(vals[k]) + Fraction(1, 3)
                     if not all(eval_bool(f, env) for f in assumptions):
                         continue
                 r = eval_sym(res, env)
@@ -549,4 +641,169 @@ def poly_witness(goal: BoolSym, assumptions, tries=40, seed=0):
                     out[key if kind == "var" else f"{key[0]}[{', '.join(map(str, key[1]))}]"] = str(v)
                 out["_residual"] = str(r)
                 return out
+    return None
+
+
+# --------------------------------------------------------------------------------------------
+# high-precision numeric witnesses for equalities over sqrt / sin / cos / log / abs / floor / ite
+# --------------------------------------------------------------------------------------------
+def _mp_eval_sym(s: Sym, env, mp):
+    tot = mp.mpf(0)
+    for m, c in s.p.items():
+        t = mp.mpf(c.numerator) / mp.mpf(c.denominator)
+        for aid, e in m:
+            v = _mp_eval_atom(ATOMS[aid], env, mp)
+            if e < 0 and v == 0:
+                raise NotEvaluable("division by zero")
+            t = t * v ** e
+        tot += t
+    return tot
+
+
+def _mp_eval_atom(a: Atom, env, mp):
+    k = a.kind
+    if k == "var":
+        f = env("var", a.args[0], a.sort)
+        return mp.mpf(f.numerator) / mp.mpf(f.denominator)
+    if k == "pi":
+        return mp.pi
+    if k == "cell":
+        idx = tuple(int(mp.nint(_mp_eval_sym(Sym._from_key(x), env, mp))) for x in a.args[1])
+        f = env("cell", (a.args[0], idx), a.sort)
+        return mp.mpf(f.numerator) / mp.mpf(f.denominator)
+    if k == "ite":
+        c = _mp_eval_bool(BoolSym._from_key(a.args[0]), env, mp)
+        return _mp_eval_sym(Sym._from_key(a.args[1] if c else a.args[2]), env, mp)
+    x = _mp_eval_sym(Sym._from_key(a.args[0]), env, mp) if k != "fn" else None
+    if k == "inv":
+        if x == 0:
+            raise NotEvaluable("division by zero")
+        return 1 / x
+    if k == "abs":
+        return abs(x)
+    if k == "floor":
+        return mp.floor(x)
+    if k == "sqrt":
+        if x < 0:
+            raise NotEvaluable("sqrt of a negative number")
+        return mp.sqrt(x)
+    if k == "sin":
+        return mp.sin(x)
+    if k == "cos":
+        return mp.cos(x)
+    if k == "log":
+        if x <= 0:
+            raise NotEvaluable("log of a non-positive number")
+        return mp.log(x)
+    if k == "exp":
+        return mp.exp(x)
+    raise NotEvaluable(k)
+
+
+def _mp_eval_bool(b: BoolSym, env, mp, margin=None):
+    k = b.k
+    if k[0] == "const":
+        return k[1]
+    if k[0] in ("lt", "le", "eq"):
+        v = _mp_eval_sym(Sym._from_key(k[1]), env, mp)
+        if k[0] == "eq":
+            return abs(v) < mp.mpf(10) ** (-30)
+        if abs(v) < mp.mpf(10) ** (-25):
+            raise NotEvaluable("comparison too close to call")
+        return v < 0
+    if k[0] == "not":
+        return not _mp_eval_bool(BoolSym(k[1]), env, mp)
+    if k[0] == "and":
+        return all(_mp_eval_bool(BoolSym(x), env, mp) for x in k[1])
+    return any(_mp_eval_bool(BoolSym(x), env, mp) for x in k[1])
+
+
+def numeric_witness(goal: BoolSym, assumptions, tries=60, seed=1):
+    """40-digit evaluation at random rational inputs satisfying the assumptions: a residual that is
+    far from zero there refutes the equality (exactness of the inputs; 40 digits vs a 1e-12 threshold)."""
+    import random
+
+    try:
+        import mpmath
+    except ImportError:
+        return None
+    if goal.k[0] != "eq":
+        return None
+    mp = mpmath.mp.clone()
+    mp.dps = 40
+    res = Sym._from_key(goal.k[1])
+    atoms = all_atoms([goal, *assumptions])
+    if any(ATOMS[a].kind == "fn" for a in atoms):
+        return None
+    int_vars = [ATOMS[a] for a in atoms if ATOMS[a].kind == "var" and ATOMS[a].sort == "int"]
+    s = z3.Solver()
+    s.set("timeout", 5000)
+    for f in assumptions:
+        if all(ATOMS[a].kind == "var" and ATOMS[a].sort == "int" for a in all_atoms([f])):
+            s.add(bool_z3(f))
+    for v in int_vars:
+        s.add(atom_z3(v) <= 12, atom_z3(v) >= -12)
+    if s.check() != z3.sat:
+        return None
+    model = s.model()
+    ints = {v.args[0]: model.eval(atom_z3(v), model_completion=True).as_long() for v in int_vars}
+    rng = random.Random(seed)
+    lo, hi = simple_bounds(assumptions)
+    circles = unit_circle_pairs(assumptions)
+    for t in range(tries):
+        vals = {}
+        for (ax, ay) in circles:
+            cx, cy = rng.choice(_CIRCLE)
+            for aid, v in ((ax, cx), (ay, cy)):
+                ek = _atom_env_key(aid)
+                if ek is not None:
+                    vals[ek] = v
+        positive = t % 2 == 1
+        if t % 6 == 1 and int_vars:
+            # another integer model: greedily steer every integer symbol to a random value (keeps markers, cells
+            # and extents from coinciding by accident, which could hide a non-zero residual)
+            s.push()
+            for v in int_vars:
+                s.push()
+                s.add(atom_z3(v) == rng.randint(0, 9))
+                if s.check() != z3.sat:
+                    s.pop()
+                    continue
+                # keep the constraint: merge this frame into the outer one by leaving it pushed
+            if s.check() == z3.sat:
+                model = s.model()
+                ints = {v.args[0]: model.eval(atom_z3(v), model_completion=True).as_long() for v in int_vars}
+            while s.num_scopes() > 0:
+                s.pop()
+
+        def env(kind, key, sort, vals=vals):
+            if kind == "var" and sort == "int":
+                return Fraction(ints[key])
+            k = (kind, key)
+            if k not in vals:
+                aid = _ATOM_LOOKUP(kind, key)
+                a, b = lo.get(aid), hi.get(aid)
+                if a is not None and b is not None and b > a:
+                    vals[k] = a + (b - a) * Fraction(rng.randint(1, 96), 97)
+                elif a is not None:
+                    vals[k] = a + Fraction(rng.randint(1, 40), rng.choice((7, 9, 11, 13)))
+                elif b is not None:
+                    vals[k] = b - Fraction(rng.randint(1, 40), rng.choice((7, 9, 11, 13)))
+                else:
+                    v = Fraction(rng.randint(1, 40), rng.choice((7, 9, 11, 13)))
+                    vals[k] = v if (positive or rng.random() < 0.5) else -v
+            return vals[k]
+
+        try:
+            if not all(_mp_eval_bool(f, env, mp) for f in assumptions):
+                continue
+            r = _mp_eval_sym(res, env, mp)
+        except (NotEvaluable, ZeroDivisionError, ValueError):
+            continue
+        if abs(r) > mp.mpf(10) ** (-12):
+            out = dict(ints)
+            for (kind, key), v in vals.items():
+                out[key if kind == "var" else f"{key[0]}[{', '.join(map(str, key[1]))}]"] = str(v)
+            out["_residual"] = mpmath.nstr(r, 12)
+            return out
     return None
